@@ -11,7 +11,8 @@
 (* MODE = "measure": print the reference measures of every case            *)
 (*   <<"MEASURE", id, depth, complexity(static), complexity(dynamic),       *)
 (*     nesting, directives>> -- the driver only adds -1, 0, +1 to them.     *)
-(* MODE = "judge": the property, per run:                                   *)
+(* MODE = "judge": one <<"VERDICT", id, json list of per-run verdicts>> per *)
+(*   case ("ok" / "known:<Dev,..>" / "violation").  The property, per run:  *)
 (*     rejected before any resolver ran  <=>  some configured limit is      *)
 (*     smaller than the document's measure          (Limits!MustReject)     *)
 (*   A run that disagrees is re-judged with the named deviations switched   *)
@@ -31,16 +32,16 @@ Ctx0(c, flavour, dev) ==
   [ts |-> TS, doc |-> c.doc, op |-> c.doc.ops[1], vars |-> c.vars, rules |-> flavour = "static", dev |-> dev]
 
 \* ---- named deviations (known_findings/C10.json decides whether they are excused) ----
-AllDevs == {"DevSpreadNoTypePush", "DevTypenameNotCounted"}
+AllDevs == {"DevSpreadNoTypePush", "DevTypenameNotCounted", "DevOmittedVarRuleError"}
 Configured(run, k) == run.limits[k] >= 0
 \* can deviation d show on this run at all?
 Trigger(c, run, d) ==
-  CASE d = "DevSpreadNoTypePush"   -> run.flavour = "static" /\ Configured(run, "complexity") /\ TriggerSpreadNoTypePush(Ctx0(c, run.flavour, {}))
-    [] d = "DevTypenameNotCounted" -> (Configured(run, "complexity") \/ Configured(run, "depth")) /\ TriggerTypenameNotCounted(Ctx0(c, run.flavour, {}))
+  CASE d = "DevSpreadNoTypePush"    -> run.flavour = "static" /\ Configured(run, "complexity") /\ TriggerSpreadNoTypePush(Ctx0(c, run.flavour, {}))
+    [] d = "DevTypenameNotCounted"  -> (Configured(run, "complexity") \/ Configured(run, "depth")) /\ TriggerTypenameNotCounted(Ctx0(c, run.flavour, {}))
+    [] d = "DevOmittedVarRuleError" -> run.flavour = "static" /\ TriggerOmittedVarRuleError(Ctx0(c, run.flavour, {}))
 
-\* the property for one run under deviation set dev
-RunOk(c, run, dev) ==
-  LET must == MustReject(Ctx0(c, run.flavour, dev), run.limits) IN
+\* the property for one run, `must` = the reference says the request has to be refused
+Agrees(run, must) ==
   /\ run.obs.problem = ""
   /\ run.obs.rejected = must
   /\ (must => run.obs.ran = 0 /\ run.obs.dataNull)
@@ -49,33 +50,29 @@ RECURSIVE JoinSet(_)
 JoinSet(S) == IF S = {} THEN "" ELSE LET x == CHOOSE y \in S : TRUE IN
               IF Cardinality(S) = 1 THEN x ELSE x \o "," \o JoinSet(S \ {x})
 
+\* M0[flavour] = reference measures, computed once per case
+RefMeasures(c) == [fl \in {"static", "dynamic"} |-> Measures(Ctx0(c, fl, {}))]
 \* {} = held; a non-empty set of deviations = explained only by them; {"violation"} otherwise
-RunDevs(c, run) ==
-  IF RunOk(c, run, {}) THEN {}
-  ELSE LET E == {D \in SUBSET AllDevs : D # {} /\ (\A d \in D : Trigger(c, run, d)) /\ RunOk(c, run, D)} IN
+RunDevs(c, run, M0) ==
+  IF Agrees(run, Exceeds(M0[run.flavour], run.limits)) THEN {}
+  ELSE LET E == {D \in SUBSET AllDevs : D # {} /\ (\A d \in D : Trigger(c, run, d))
+                                        /\ Agrees(run, MustReject(Ctx0(c, run.flavour, D), run.limits))} IN
        IF E = {} THEN {"violation"}
        ELSE CHOOSE D \in E : \A D2 \in E : Cardinality(D2) >= Cardinality(D)
 
-RECURSIVE FirstBad(_, _)
-FirstBad(c, i) == IF i > Len(c.runs) THEN 0 ELSE IF RunDevs(c, c.runs[i]) = {"violation"} THEN i ELSE FirstBad(c, i + 1)
-Verdict(c) ==
-  LET bad == FirstBad(c, 1) IN
-  IF bad > 0 THEN "violation:run" \o ToString(bad)
-  ELSE LET D == UNION {RunDevs(c, c.runs[i]) : i \in 1..Len(c.runs)} IN
-       IF D = {} THEN "ok" ELSE "known:" \o JoinSet(D)
+RunVerdicts(c) ==
+  LET M0 == RefMeasures(c) IN
+  [i \in 1..Len(c.runs) |-> LET D == RunDevs(c, c.runs[i], M0) IN
+                            IF D = {} THEN "ok" ELSE IF D = {"violation"} THEN "violation" ELSE "known:" \o JoinSet(D)]
 
-\* per-run verdicts, for the evidence and for debugging: "ok" / "known:.." / "violation"
-RunVerdict(c, i) == LET D == RunDevs(c, c.runs[i]) IN
-                    IF D = {} THEN "ok" ELSE IF D = {"violation"} THEN "violation" ELSE "known:" \o JoinSet(D)
-
-Measures(c) ==
-  <<"MEASURE", c.id, Depth(Ctx0(c, "static", {})), Complexity(Ctx0(c, "static", {})), Complexity(Ctx0(c, "dynamic", {})),
-    Nesting(Ctx0(c, "static", {})), MaxDirectives(Ctx0(c, "static", {}))>>
+\* MEASURE line of the measuring pass
+MeasureLine(c) ==
+  LET S == Measures(Ctx0(c, "static", {})) IN
+  <<"MEASURE", c.id, S["depth"], S["complexity"], Complexity(Ctx0(c, "dynamic", {})), S["recursive"], S["directives"]>>
 
 TInit == l = 1
 TNext == /\ l <= Len(Cases)
-         /\ IF Mode = "measure" THEN PrintT(Measures(Cases[l]))
-            ELSE /\ PrintT(<<"VERDICT", Cases[l].id, Verdict(Cases[l])>>)
-                 /\ PrintT(<<"RUNS", Cases[l].id, [i \in 1..Len(Cases[l].runs) |-> RunVerdict(Cases[l], i)]>>)
+         /\ IF Mode = "measure" THEN PrintT(MeasureLine(Cases[l]))
+            ELSE PrintT(<<"VERDICT", Cases[l].id, ToJson(RunVerdicts(Cases[l]))>>)
          /\ l' = l + 1
 =============================================================================
